@@ -139,6 +139,10 @@ func runIn(c *kernel.Ctx) {
 			r.Chain.Close()
 		}
 	}()
+	gen.Outputs = func(token common.Address, seq uint64) (*types.UTXOOutputData, error) {
+		return rs.T.Chain.UtxoStore.GetUtxoOutput(token, seq)
+	}
+	gen.Cfg.UTXOGas = rs.T.Chain.App.GetUTXOGas()
 	gen.KnowGenesis(config.ContractValidatorsAddr, common.EmptyAddress)
 	for _, v := range vals {
 		gen.KnowGenesis(v.CoinBase)
